@@ -1126,6 +1126,31 @@ func c10defaultLevel(c *Ctx) {
 			if !check("after-SetLevel("+x.String()+")", x) {
 				return
 			}
+			if r.P(60) {
+				// a window opened with SaveLevelAndSet (the `defer SaveLevelAndSet(y)()` idiom): inside it the level is y - or
+				// what a plain SetLevel made of it meanwhile - and its restore closure brings back the level saved at its start
+				y := gen.Pick(r, []slog.Level{slog.ErrorLevel, slog.InfoLevel, slog.TraceLevel, slog.PanicLevel})
+				restoreLevel := slog.SaveLevelAndSet(y)
+				hist = append(hist, "SaveLevelAndSet("+y.String()+")")
+				if !check("inside-SaveLevelAndSet("+y.String()+")", y) {
+					return
+				}
+				if r.Bool() {
+					z := gen.Pick(r, []slog.Level{slog.WarnLevel, slog.DebugLevel, slog.AlwaysLevel})
+					slog.SetLevel(z)
+					is.SetDebugMode(false)
+					hist = append(hist, "SetLevel("+z.String()+") inside the window")
+					if !check("after-SetLevel-inside-the-window", z) {
+						return
+					}
+				}
+				restoreLevel()
+				hist = append(hist, "restore")
+				c.R.Add("SaveLevelAndSet_windows", 1)
+				if !check("after-the-restore-closure-of-SaveLevelAndSet", x) {
+					return
+				}
+			}
 			if old.Level() != oldLevel {
 				c.R.Violation(idx, "isolation", "C10/isolation/package-SetLevel", fmt.Sprintf("package SetLevel(%v) changed the level of an existing detached logger from %v to %v", x, oldLevel, old.Level()), nil)
 				return
